@@ -264,7 +264,7 @@ def sweep(rng, h):
     base['ops'] = [op]
     cands = []
     for dtid, dt, m in W.iter_doctests(world):
-        if m is mod and not dt.get('disabled'):
+        if m is mod and not dt.get('disabled') and not dt.get('zero_arg'):
             pts = common.points_of(world, dtid)
             if pts:
                 cands.append((dtid, pts[0]['pid']))
